@@ -146,11 +146,11 @@ func vh_C16_L3_sort_orders() {
 // with fully symbolic sequence-number bases, are part of this property's check:
 // receiver cursor advance at the SSN/MID wrap, deferred reset against a symbolic last
 // TSN, the ack decision for a symbolic TSN, window capacity for every buffer size.
-func vh_C16_L4_receiver_skip_at_wrap()  { vh_C07_L3_receiver_skip_exact() }
-func vh_C16_L4_deferred_reset()         { vh_C14_L2_deferred_reset() }
-func vh_C16_L4_ack_policy()             { vh_C19_L5_ack_policy() }
-func vh_C16_L4_window_capacity()        { vh_C01_L4_tracking_window_capacity() }
-func vh_C16_L4_ordered_reassembly()     { vh_C01_L5_ordered_reassembly() }
-func vh_C16_L4_cwnd_laws_any_tsn()      { vh_C10_L3_cwnd_laws() }
-func vh_C16_L4_transfer_across_wrap()   { vh_C02_L1_reliable_transfer_one_fault() }
+func vh_C16_L4_receiver_skip_at_wrap()   { vh_C07_L3_receiver_skip_exact() }
+func vh_C16_L4_deferred_reset()          { vh_C14_L2_deferred_reset() }
+func vh_C16_L4_ack_policy()              { vh_C19_L5_ack_policy() }
+func vh_C16_L4_window_capacity()         { vh_C01_L4_tracking_window_capacity() }
+func vh_C16_L4_ordered_reassembly()      { vh_C01_L5_ordered_reassembly() }
+func vh_C16_L4_cwnd_laws_any_tsn()       { vh_C10_L3_cwnd_laws() }
+func vh_C16_L4_transfer_across_wrap()    { vh_C02_L1_reliable_transfer_one_fault() }
 func vh_C16_L4_forward_tsn_largest_ssn() { vh_C07_L2_advance_only_over_abandoned() }
